@@ -5,8 +5,10 @@ import Thanos.Model.Bucket
 
   State: the bucket and the shipper meta file (`thanos.shipper.json`: list of uploaded ULIDs, or
   unreadable/absent).  The local TSDB directory is fixed (blocks are immutable): a list of blocks
-  sorted by MinTime ("blockMetasFromOldest").  External labels are constant and not modelled
-  (the harness's oracle compares the labels in the uploaded meta.json).
+  sorted by MinTime ("blockMetasFromOldest").  External labels are numbers ("label versions"):
+  the value of the `WithLabels` callback during one Sync is part of `Cfg` (`lcur`, and optionally a
+  switch to another value after a number of mutating bucket calls of that Sync — the callback is
+  dynamic in the sidecar); the state records, per block, the label version in its bucket meta.json.
 
   Faults of the bucket during one Sync (`Fault`): a crash budget as in Model/Bucket.lean (after `k`
   mutating bucket calls every bucket call fails) and/or a transient failure (exactly the `j`-th
@@ -25,10 +27,23 @@ structure LBlock where
   files : Block
   deriving DecidableEq, Repr
 
+/-- the configuration of ONE Sync: the two flags and what the external-labels callback returns
+    while it runs -/
 structure Cfg where
   uploadCompacted : Bool
   allowOOO : Bool      -- allowOutOfOrderUploads
+  lcur : Nat                      -- value of the labels callback when the Sync starts
+  lswitch : Option (Nat × Nat)    -- some (k, v): after k mutating bucket calls of this Sync it returns v
   deriving DecidableEq, Repr
+
+/-- `s.labels()` called when `n` mutating bucket calls of the Sync have been made -/
+def labelNow (cfg : Cfg) (n : Nat) : Nat :=
+  match cfg.lswitch with
+  | some (k, v) => if k ≤ n then v else cfg.lcur
+  | none => cfg.lcur
+
+def lookupL (m : List (Nat × Nat)) (id : Nat) : Option Nat := (m.find? (·.1 = id)).map (·.2)
+def setL (m : List (Nat × Nat)) (id v : Nat) : List (Nat × Nat) := (id, v) :: m.filter (·.1 ≠ id)
 
 /-- does the block take part in uploading at all (not empty, level 1 or compacted uploads on) -/
 def eligible (cfg : Cfg) (b : LBlock) : Bool :=
@@ -67,6 +82,14 @@ def codeSkipPartial : Bool := true
 
 def checkerSync (locals : List LBlock) (s : Bucket) : Option (List (Int × Int)) :=
   checkerSyncWith codeSkipPartial locals s
+
+/-- … and keeps the blocks whose meta.json carries the shipper's current external labels -/
+def checkerSyncL (locals : List LBlock) (s : Bucket) (lbl : List (Nat × Nat)) (cur : Nat) : Option (List (Int × Int)) :=
+  match checkerSyncWith codeSkipPartial locals s with
+  | none => none
+  | some _ =>
+    collectRanges locals s ((dirsOf s).filter fun n =>
+      (!codeSkipPartial || (get s (n, metaName)).isSome) && lookupL lbl n == some cur)
 
 /-- the faults of the bucket during one Sync -/
 structure Fault where
@@ -111,6 +134,7 @@ structure Acc where
   checker : Option (List (Int × Int))        -- lazyOverlapChecker.metas once synced
   uploadErrs : Nat
   trace : List Op
+  lbl : List (Nat × Nat)                     -- block ↦ label version in its bucket meta.json
   deriving Repr
 
 inductive Step where
@@ -131,7 +155,7 @@ def overlapCheck (cfg : Cfg) (locals : List LBlock) (b : LBlock) (a : Acc) :
       match a.fault.passReads (1 + (dirsOf a.bkt).length) with
       | none => none
       | some f' =>
-        match checkerSync locals a.bkt with
+        match checkerSyncL locals a.bkt a.lbl (labelNow cfg a.trace.length) with
         | none => none
         | some ms => if overlapping ((b.minT, b.maxT) :: ms) then none else some (some ms, f')
   else some (a.checker, a.fault)
@@ -157,7 +181,8 @@ def uploadF (f : Fault) (n : Nat) (b : Block) (s : Bucket) : Res × Fault :=
 def doUpload (cfg : Cfg) (b : LBlock) (a : Acc) (checker' : Option (List (Int × Int))) (f : Fault) : Step :=
   let r := uploadF f b.id b.files a.bkt
   let a' : Acc := { a with fault := r.2, bkt := r.1.bkt, trace := a.trace ++ r.1.trace, checker := checker' }
-  if r.1.ok then .cont { a' with uploaded := a'.uploaded ++ [b.id] }
+  -- `upload` attaches `s.labels()` to the meta before block.Upload issues its first call
+  if r.1.ok then .cont { a' with uploaded := a'.uploaded ++ [b.id], lbl := setL a.lbl b.id (labelNow cfg a.trace.length) }
   else if cfg.allowOOO = false then .abort a'
   else .cont { a' with uploadErrs := a'.uploadErrs + 1 }
 
@@ -189,6 +214,7 @@ def loop (cfg : Cfg) (locals : List LBlock) (hasUploaded : List Nat) : List LBlo
 structure State where
   bkt : Bucket
   file : Option (List Nat)       -- none: no / unreadable thanos.shipper.json
+  lbl : List (Nat × Nat)         -- block ↦ label version in its bucket meta.json
   deriving Repr
 
 structure SyncRes where
@@ -200,8 +226,8 @@ structure SyncRes where
 /-- `Shipper.Sync` -/
 def sync (cfg : Cfg) (locals : List LBlock) (fault : Fault) (st : State) : SyncRes :=
   let hasUploaded := st.file.getD []
-  match loop cfg locals hasUploaded locals ⟨fault, st.bkt, [], none, 0, []⟩ with
-  | .abort a => ⟨false, a.trace, ⟨a.bkt, st.file⟩⟩
-  | .cont a => ⟨a.uploadErrs = 0, a.trace, ⟨a.bkt, some a.uploaded⟩⟩
+  match loop cfg locals hasUploaded locals ⟨fault, st.bkt, [], none, 0, [], st.lbl⟩ with
+  | .abort a => ⟨false, a.trace, ⟨a.bkt, st.file, a.lbl⟩⟩
+  | .cont a => ⟨a.uploadErrs = 0, a.trace, ⟨a.bkt, some a.uploaded, a.lbl⟩⟩
 
 end Thanos.Shipper
